@@ -4,6 +4,7 @@ import (
 	"go/token"
 	"go/types"
 	"strings"
+	"unicode/utf8"
 
 	"golang.org/x/tools/go/ssa"
 )
@@ -595,6 +596,9 @@ func c01Hierarchy(w *World, r *Report, la *LockAn) {
 
 func trunc(s string, n int) string {
 	if len(s) > n {
+		for n > 0 && !utf8.RuneStart(s[n]) {
+			n--
+		}
 		return s[:n] + "…"
 	}
 	return s
